@@ -75,13 +75,13 @@ let run (lines : string list) =
         a := a';
         match r with
         | Some h -> st := Set h; Printf.printf "new %s%s ## new OK%s\n" (stat_name s) (obs ()) (ideal ())
-        | None -> st := Nothing; Printf.printf "new %s |%s\n" (stat_name s) (ledger !a)
+        | None -> st := Nothing; Printf.printf "new %s |%s ## new %s |\n" (stat_name s) (ledger !a) (stat_name s)
       end else begin
         let ((s, r), a') = ok (ht_new tg cap num den seed !a) in
         a := a';
         match r with
         | Some t -> st := Tbl t; Printf.printf "new %s%s ## new OK%s\n" (stat_name s) (obs ()) (ideal ())
-        | None -> st := Nothing; Printf.printf "new %s |%s\n" (stat_name s) (ledger !a)
+        | None -> st := Nothing; Printf.printf "new %s |%s ## new %s |\n" (stat_name s) (ledger !a) (stat_name s)
       end
     end else
       match tok, !st with
